@@ -293,3 +293,67 @@ Print Assumptions C12_vol_session_step.
 Print Assumptions C12_vol_read_only_untouched.
 Print Assumptions C12_vol_reachable.
 Print Assumptions C12_vol_unmount_restores.
+
+(* ================================================================ FAT32: the status byte at offset 0x41 (65) inside the image model
+   (Model/VolFsInfo.v, Proofs/VolFsInfoProofs.v).  vol_set_dirty_flag / marked / vreach above are stated for any geometry through
+   Abs.g_status_off; here they are instantiated at the FAT32 width and tied to the mounted FAT32 session machine v32_step
+   (statistics, allocations, frees, file calls - each followed by set_dirty_flag(true) exactly when the code passes it) between
+   vol32_mount and vol32_unmount (flush_fs_info, THEN set_dirty_flag(false)). *)
+From FatVerif Require Import Model.FormatImage Model.VolFsInfo Proofs.VolFsInfoProofs Proofs.VolFsInfoExamples.
+
+(* set_dirty_flag on a FAT32 image: only byte 0x41 can change; bits 1-7 are the mount byte's; with [false] the byte IS the mount byte *)
+Theorem C12_vol32_set_dirty_flag : forall g im s d, g_bits g = 32 -> StatInv g im s ->
+  let im' := fst (vol_set_dirty_flag g im s d) in let s' := snd (vol_set_dirty_flag g im s d) in
+  (forall a, a <> 65 -> img_get im' a = img_get im a) /\ StatInv g im' s' /\ mount_byte s' = mount_byte s /\
+  s' = set_dirty_flag s d /\
+  img_get im' 65 / 4 = mount_byte s / 4 /\ N.odd (img_get im' 65 / 2) = N.odd (mount_byte s / 2) /\
+  (d = true -> N.odd (img_get im' 65) = true /\ sf_dirty (current s') = true) /\
+  (d = false -> img_get im' 65 = mount_byte s) /\
+  (flags_change s d = false -> im' = im /\ s' = s).
+Proof. exact vol32_set_dirty_flag_spec. Qed.
+
+(* EVERY admissible history of a mounted FAT32 volume (FatProofs.bytes_ok im: bytes < 256; Vol32, mount_coherent, run_ok: see C05):
+   the latch mirrors the device byte, bits 1-7 of byte 0x41 are the mount byte's, no reserved sector changes apart from that byte,
+   and EITHER the dirty bit is on the device OR not a single byte has been written since mount *)
+Theorem C12_vol32_reachable : forall strict im cs fi s h,
+  let g := parse_geom im in
+  FatProofs.bytes_ok im -> Vol32 g -> vol32_mount strict im = Ok (fi, s) -> mount_coherent g im ->
+  let st0 := {| v_im := im; v_fi := fi; v_h := h; v_s := s |} in
+  run_ok g st0 cs ->
+  let stL := fst (v32_run g st0 cs) in
+  StatInv g (v_im stL) (v_s stL) /\ mount_byte (v_s stL) = img_get im 65 /\
+  img_get (v_im stL) 65 / 4 = img_get im 65 / 4 /\ N.odd (img_get (v_im stL) 65 / 2) = N.odd (img_get im 65 / 2) /\
+  (forall a, reserved_area g a -> a <> 65 -> img_get (v_im stL) a = img_get im a) /\
+  ((N.odd (img_get (v_im stL) 65) = true /\ sf_dirty (current (v_s stL)) = true) \/ (v_im stL = im /\ v_s stL = s)).
+Proof. exact vol32_reachable. Qed.
+
+(* UNMOUNT: byte 0x41 equals the mount-time byte EXACTLY, for every mount byte and history; nothing else changes outside the
+   FS-info sector; the image is the image of the listed device writes (the sector first, then the status byte); no write at all
+   when nothing was marked and the FS-info latch is clean *)
+Theorem C12_vol32_unmount_restores : forall strict im cs fi s h,
+  let g := parse_geom im in
+  FatProofs.bytes_ok im -> Vol32 g -> vol32_mount strict im = Ok (fi, s) -> mount_coherent g im ->
+  let st0 := {| v_im := im; v_fi := fi; v_h := h; v_s := s |} in
+  run_ok g st0 cs ->
+  let stL := fst (v32_run g st0 cs) in
+  let im' := fst (fst (vol32_unmount g (v_im stL) (v_fi stL) (v_s stL))) in
+  img_get im' 65 = img_get im 65 /\
+  (forall a, a <> 65 -> ~ in_fsi g a -> img_get im' a = img_get (v_im stL) a) /\
+  im' = apply_writes (v_im stL) (vol32_unmount_writes g (v_fi stL) (v_s stL)) /\
+  (v_im stL = im -> v_s stL = s -> fi_dirty (v_fi stL) = false ->
+     vol32_unmount_writes g (v_fi stL) (v_s stL) = [] /\ im' = im).
+Proof. exact vol32_unmount_restores. Qed.
+
+(* non-vacuity: the premises hold on the formatted 65579-cluster FAT32 volume with a six-call session (C05_vol32_example_hyps states
+   them); status byte 1 after the first write, 0 after unmount (C05_vol32_example_result); mounted dirty (byte 1) it stays 1 *)
+Example C12_vol32_example :
+  FatProofs.bytes_ok ex32_im /\ Vol32 (parse_geom ex32_im) /\ mount_coherent (parse_geom ex32_im) ex32_im /\
+  vol32_mount false ex32_d16 = Ok ({| fi_free := None; fi_next := Some 3; fi_dirty := false |}, st_mount 1).
+Proof.
+  split; [exact ex32_bytes|]. split; [exact ex32_vol32|]. split; [exact ex32_coherent|].
+  destruct ex32_d16_witness as (_ & _ & _ & H & _). exact H.
+Qed.
+
+Print Assumptions C12_vol32_set_dirty_flag.
+Print Assumptions C12_vol32_reachable.
+Print Assumptions C12_vol32_unmount_restores.
